@@ -170,6 +170,50 @@ def opqs : Ex → List Nat
   | .bin l r => opqs l ++ opqs r
   | _ => []
 
+/-! ### tuple assignment `l₁, …, lₙ = r₁, …, rₙ` (statements.go:399-414) -/
+
+def evalRs (E : Env σ) (t : Tmp) : List Ex → σ → List Val × σ
+  | [], s => ([], s)
+  | e :: r, s =>
+    let a := evalR E t e s
+    let b := evalRs E t r a.2
+    (a.1 :: b.1, b.2)
+
+def evalLs (E : Env σ) (t : Tmp) : List Ex → σ → List Loc × σ
+  | [], s => ([], s)
+  | e :: r, s =>
+    let a := evalL E t e s
+    let b := evalLs E t r a.2
+    (a.1 :: b.1, b.2)
+
+def storeAll (E : Env σ) : List Loc → List Val → σ → σ
+  | l :: ls, v :: vs, s => storeAll E ls vs (E.store l v s)
+  | _, _, s => s
+
+/-- **Specification** (Go spec, Assignment statements): phase 1 evaluates the operands of index expressions and pointer
+    indirections on the left and the expressions on the right, all in the usual order; phase 2 carries out the
+    assignments left to right. -/
+def specTuple (E : Env σ) (t : Tmp) (ls rs : List Ex) (s : σ) : σ :=
+  let l := evalLs E t ls s
+  let v := evalRs E t rs l.2
+  storeAll E l.1 v.1 v.2
+
+/-- `lhs_i = _tmp_i`, one after the other: the operands of `lhs_i` are evaluated only now (statements.go:409-414) -/
+def assignEach (E : Env σ) (t : Tmp) : List Ex → List Val → σ → σ
+  | l :: ls, v :: vs, s =>
+    let loc := evalL E t l s
+    assignEach E t ls vs (E.store loc.1 v loc.2)
+  | _, _, s => s
+
+/-- **The code** (statements.go:399-414): every right-hand side into a `_tmp` variable first, then the stores. -/
+def codeTuple (E : Env σ) (t : Tmp) (ls rs : List Ex) (s : σ) : σ :=
+  let v := evalRs E t rs s
+  assignEach E t ls v.1 v.2
+
+def isIdent : Ex → Bool
+  | .ident _ => true
+  | _ => false
+
 /-! ### driver: shape of the desugaring of the lvalue forms the generated programs use -/
 
 def lvForm : Nat → Ex
